@@ -14,7 +14,7 @@ import vcommon as vc
 SPEC = os.path.join(vc.VERIF, "spec", "Text")
 MODULE = "ParserOutcomeTrace"
 CFG = os.path.join(SPEC, MODULE + ".cfg")
-MAX_RESTARTS = 6      # crashes / hangs followed up per entry point and batch
+MAX_RESTARTS = 6      # crashes / hangs followed up per entry point and batch (dictionary batches: 10x)
 
 SAN_ENV = {
     "ASAN_OPTIONS": "abort_on_error=1:detect_leaks=0:max_allocation_size_mb=1024:hard_rss_limit_mb=6144:handle_abort=0",
@@ -109,6 +109,7 @@ def _run_batch(exe, wd, entry, batch, budget, n, call_ms, avoid=False, probe=Non
             last["kind"], last["where"] = "hang", ""
             stats["hangs"] += 1
         last["entry"] = entry
+        last["batch"] = batch
         lines[-1] = json.dumps(last, separators=(",", ":"))
         with open(p, "w") as f:
             f.write("\n".join(lines) + "\n")
@@ -116,7 +117,7 @@ def _run_batch(exe, wd, entry, batch, budget, n, call_ms, avoid=False, probe=Non
             raise vc.MachineryError("driver died before its first call on %s/%s:\n%s" % (entry, batch, err[-1500:]))
         start = begin["i"] + 1
         restarts += 1
-        if restarts > MAX_RESTARTS:
+        if restarts > (MAX_RESTARTS * 10 if batch == "dict" else MAX_RESTARTS):
             stats["abandoned"] = True
             break
     return parts, stats
@@ -160,7 +161,7 @@ def _sig(rj):
     ev = rj.event or {}
     entry = ev.get("entry", "")
     if ev.get("e") in ("Crash", "Hang"):
-        return {"entry": entry, "event": ev.get("e"), "kind": ev.get("kind", ""), "where": ev.get("where", "")}
+        return {"entry": entry, "event": ev.get("e"), "kind": ev.get("kind", ""), "where": ev.get("where", ""), "batch": ev.get("batch", "")}
     return {"entry": entry, "event": ev.get("e"), "kind": ev.get("out", ""), "where": ev.get("x", "")}
 
 
@@ -206,7 +207,7 @@ def run(tier, seed):
     # reproduced by one dedicated probe call
     known = [k for k in vc.load_findings().get("known", []) if k.get("property") == "C16"]
     avoid_entries = {k.get("match", {}).get("entry") for k in known}
-    jobs = [(e["entry"], b, None) for e in entries for b in ("exh", "seeded")]
+    jobs = [(e["entry"], b, None) for e in entries for b in ("exh", "seeded", "dict")]
     jobs += [(k["probe"]["entry"], "probe", k["probe"]) for k in known if "probe" in k]
 
     def job(j):
@@ -240,7 +241,7 @@ def run(tier, seed):
     sample = []
     for p in files[:3]:
         with open(p) as f:
-            sample.append([json.loads(next(f)) for _ in range(5)])
+            sample.append([json.loads(ln) for ln in f.readlines()[:5]])
     ck.samples = sample
     ck.handle_rejections(rej, _sig, tag="f", cap=40)
     ck.evaluations = total_inputs
